@@ -140,4 +140,35 @@ theorem C16_stage_fused_is_turn {w : Nat} {s s' : St} (hm : s.midTurn = false)
       · simp [stepT, Label.isLoop, step, hlt, St.register]
     · simp [hp] at h
 
+/-! ### Thread granularity (`stepT`): what is proved and what is not
+
+NOT PROVED (full statement, kept visible):
+
+    theorem C16_stage_turn_no_lost_batch (h : ReachT (St.init all n) s) :
+        (s.consumerDone = true → s.consumed.Perm all) ∧
+        (s.toProduce ++ s.inp ++ hands s.ws ++ s.resultQ ++ s.consumed).Perm all
+
+i.e. conservation / no lost batch for the thread-granular LTS in which a worker may already pull between its
+kick-off and its registration.  The invariant needed on top of `Lemmas/StageInv.lean` is "a `kicked` worker with
+a non-empty hand implies `stop = 0`" (`finish` is an event-loop step, so it cannot happen mid-turn; once
+`stop ≠ 0` some worker has seen the end of the input and a kicked worker can pull nothing).  Evidence short of
+a proof: the driver's exhaustive `explore` (mode "turn") of all schedules for ≤ 3 workers / ≤ 3 batches ends in
+complete terminals only, and every projected real run is accepted by `stepT`.  The theorems above
+(`ackAwait = false`) cover the executions in which no real thread runs mid-turn (`C16_stage_fused_is_turn`). -/
+
+/-- test (non-vacuity of the thread-granular LTS): the worker pulls BETWEEN kick-off and registration, the
+consumer still receives everything -/
+example : (runT (St.init [10, 11] 2) [.produce, .produce, .closeInput, .schedule 0, .schedule 1, .created 1, .pull 1,
+      .ack 1, .created 0, .pull 0, .pullEnd 0, .pullEnd 1, .ack 0, .forward 0, .forward 1, .finish 0, .finish 1,
+      .consume, .consume, .consumerEnd]).map (fun s => s.consumerDone && s.consumed == [11, 10]) = some true := by
+  decide
+
+/-- test: the schedule by which the `ackAwait = true` LTS loses a batch (`Witness/C16Stage.lean`) is NOT an
+execution of the thread-granular LTS - it needs event-loop steps of worker 0 while worker 1 is mid-turn -/
+theorem C16_stage_turn_rejects_loss_witness :
+    runT (St.init [10, 11] 2)
+      [.produce, .produce, .closeInput, .schedule 0, .schedule 1, .created 1, .created 0, .ack 0, .pull 0, .pull 1,
+       .pullEnd 0, .forward 0, .finish 0, .consume, .consumerEnd] = none := by
+  decide
+
 end MlModel.C16
